@@ -293,11 +293,19 @@ def validate_scalar(value: Any, dtype: DataType) -> Any:
 
     # Numeric coercions
     if dtype.kind is float and vtype in (int, bool):
-        return float(value)
+        try:
+            return float(value)
+        except OverflowError:
+            # an int beyond float range belongs to a float column as it is (the vector keeps such
+            # an element unconverted when it is built), so writing it is not an error
+            return value
     if dtype.kind is int and vtype is bool:
         return int(value)
     if dtype.kind is complex and vtype in (int, float, bool):
-        return complex(value)
+        try:
+            return complex(value)
+        except OverflowError:
+            return value
 
     # Temporal promotion
     if dtype.kind is datetime and vtype is date:
